@@ -135,6 +135,7 @@ def auditedSites : List (String × String × String × String) := [
   ("elements.assign_iterable", "setitem", "lhs", "deep_copy(lhs) if isinstance(lhs, LazyList) else lhs[:]"),  -- fresh copy
   ("elements.assign_iterable", "setitem", "lhs", "list(lhs)"),                                                 -- fresh list of a string
   ("elements.function_call", "aug-name", "lhs", ""),           -- lhs is the stack itself
+  ("elements.grid_helper", "aug-name", "temp", "alias of string"),   -- a string (immutable): += rebinds
   ("elements.multiplicity", "aug-name", "lhs", ""),            -- a number
   ("elements.roman_numeral", "aug-name", "lhs", ""),           -- a number
   ("elements.vy_print", "aug-item", "ctx", ""),                -- ctx.online_output
